@@ -40,9 +40,11 @@ index `-1` of a never-reached state from being propagated:
 * `fsg_search_pnode_exit`: the new entry carries the leaf's `fsglink`, the current frame, the exit score and
   `hmm_out_history(hmm)` of a leaf whose exit score is live — `ExitOK`.
 
-Every predicate is decidable; the driver evaluates them (`stepRelB`, `startRelB`, `searchInvB`,
-`lexTreeOKB`, proved sound in `Proofs/Search.lean`) on the lextree and on every pair of consecutive states
-dumped from the real decoder (`harness/h_c01s.c`).  Core Lean only.
+Every predicate is decidable; the driver evaluates them (`decide (LexTreeOK …)`, `startRelB`, `stepRelB`,
+`searchInvB`, proved sound in `Proofs/Search.lean`) on the lextree and on every pair of consecutive states
+dumped from the real decoder (`harness/h_c01s.c`), and compares `evalHist3` — the statement-by-statement
+mirror of `hmm_vit_eval_3st_lr` with the history assignments — with every HMM the real search evaluated.
+Core Lean only.
 -/
 namespace SSVerif.Search
 open SSVerif.Hist
